@@ -24,6 +24,12 @@ instructions with operations of length {3,12,23,24,40}, end comment).  Families:
      wraps to fewer lines than the rowspan, exactly the rowspan, +1, +2 and +4 lines (at each
      of the three widths), ordinary cells in the other rows and a =c2 cell, in the
      description / start / mid-block / end comment, with text before/after (asm, html)
+  P  register sections: every sequence of 1..3 (thorough: 1..4) register prefixes over {none, I, Output, o, Entry, r}
+     plus every letter A-Z a-z as the first letter of a prefix (alone / followed by more letters, then a register
+     without a prefix), each with plain and with delimited register names                  (asm, ctl, html)
+  U  #LIST bullets: the writer's bullet property {not set, '', '+', '--', '-->'} x the list's bullet parameter
+     {not given, '+', '--', '-->'} x every item length 1..2*(width-2)+1 x line width {40,79,120} x 2 of the 7
+     block positions, rotating with the length (thorough: all 7, and 2 word styles)       (asm; html for the parameter)
   N  line widths 31 and 24 (narrower than the longest word, so that one unbreakable word
      cannot fit in any comment position)                                (asm)
   H  a smaller length sweep for the entry pages                         (html)
@@ -1043,11 +1049,18 @@ def run(tier, seed):
               'splits (asm at 3 widths; html{}; ctl x 3 widths x InstructionWidth/CommentWidthMin deviations). K: 6 block kinds x {} lengths x 4 '
               'contexts x 7 positions (asm x 3 widths x instruction-width/comment-width-min/wrap-column-width-min deviations; html). '
               'R: rowspan {{2,3}} x 13 cell lengths x 2 styles x 2 contexts x 4 positions (asm x 3 widths x wrap-column-width-min deviations; html). '
+              'P: every sequence of 1..{} register prefixes over {} + every letter A-Z a-z as first letter of a prefix (2 forms, followed by a '
+              'register without a prefix), x plain/delimited register names (asm x 3 widths; ctl x 3 widths; html). '
+              'U: bullet property {} x #LIST bullet parameter {} x every item length 1..2*(width-2)+1 x line width {{40,79,120}} x {} of the 7 block '
+              'positions (rotating with the length) x word styles {} (asm; html: parameter x item lengths 1..{} x {} position(s)). '
               'N: 12 entries x line width {{31,24}} (asm). H: 3 styles x sentence lengths 0..{} x one in {} shapes, rotating (html).'.format(
                   3 * len(W_LENGTHS) * (4 if quick else 12), list(W_LENGTHS), 4 if quick else 12,
                   'every 6th (rotating with the length)' if quick else 'every 2nd (rotating with the length)', len(SHAPES),
                   1 if quick else 2, ASM_ALTS, CTL_ALTS, 4 if quick else 5, '' if quick else ' incl. single-page mode for k<=3',
-                  6 if quick else 10, 159 if quick else 239, 12 if quick else 3),
+                  6 if quick else 10,
+                  3 if quick else 4, list(PREFIX_ALPHABET), list(BULLET_PROPS), list(BULLET_PARAMS), 2 if quick else 7,
+                  ['dense'] if quick else ['dense', 'mixed'], 112 if quick else 240, 1 if quick else 7,
+                  159 if quick else 239, 12 if quick else 3),
         assumptions=[
             'brace rules ("Braces in comments"): the skool source written for skool2asm/skool2html wraps a group comment exactly as sna2skool does '
             '("{" + one more per unmatched "}", "{ {"/"} }" spacing, closing braces to balance); if the nesting count of the text drops to zero '
@@ -1067,6 +1080,13 @@ def run(tier, seed):
             'that column\'s border characters (a cell with a rowspan occupies its column in all the rows it spans, so this is a per-cell comparison '
             'for it); HTML tables per cell',
             '#LIST/#TABLE blocks are generated for skool2asm / skool2html only',
+            'the bullet of a list in ASM mode is its bullet parameter if given, else the bullet property (set with -P bullet=..., default "*"); '
+            'an empty bullet (property only: an empty bullet *parameter* is not enumerated) means the items carry no prefix; the bullet is a fixed '
+            'prefix of a list item line (like a register name), so a line made of the bullet and one unbreakable word is excusable, but a bullet of '
+            'any length followed by two or more words must fit the line width',
+            'register prefixes consist of letters; a prefix whose first letter is O or o puts the register (and the following registers without a '
+            'prefix) in the output table of the entry page, any other letter in the input table; the expected page lists the input registers '
+            'before the output registers, each group in source order',
             'words contain no digits, no "#", no "|" and never start with "." or "*" (so they cannot be taken for addresses, macros, table borders, '
             'paragraph separators or bullets)',
         ],
